@@ -16,7 +16,9 @@ EXPLANATION = (
     "f_offset += x.len(), the recorded size is data.len(), and only add_part/serialize write to the file; "
     "(A-FOOT) the role sequence written by the footer serialiser (count; per stream name, NUL, #parts, raw size; "
     "per part offset, size; 8-byte LE length) equals the sequence consumed by the deserialiser, with the same "
-    "loop nesting; (A-VAR) writer and reader of the length-prefixed big-endian integer agree in shape; "
+    "loop nesting; (A-VAR) the length-prefixed big-endian integer codec is interpreted in an 8-bit slot domain over the nine classes "
+    "`exactly m significant bytes` that partition u64: writer output = length byte + value bytes most significant first, reader returns the same "
+    "value and length, malformed length bytes and truncated encodings are errors (shape clauses only as fallback); "
     "(A-EMPTY) empty parts are returned as (empty, 0) without touching the file.")
 UNDECIDED = "byte equality of stored and returned parts as such (runtime I/O); behaviour of the OS file layer"
 
@@ -537,6 +539,81 @@ def _varint(F, rep):
     r = F.funcs.get("ragc_common::varint::read_varint")
     if not rep.floor("C13-VAR", (1 if w else 0) + (1 if r else 0), 2, "write_varint / read_varint"):
         return
+    sem = _varint_semantic(F, rep, w, r) if getattr(F, "cfg", "dev") == "dev" else None
+    _varint_sinks(F, rep, w, r)
+    if sem is True:
+        return        # the codec is decided for every u64 by what it computes; the shape clauses below are the fallback
+    if sem is None and getattr(F, "cfg", "dev") != "dev":
+        return        # other build configurations: same source, the evaluation ran on the dev facts
+    _varint_shape(F, rep, w, r)
+
+
+def _varint_semantic(F, rep, w, r):
+    """Abstract interpretation in the 8-bit slot domain (byteslots.py): the nine classes `exactly m significant bytes`
+    (m = 0..8) partition u64.  For each class the writer must emit the length byte m followed by the m value bytes, most
+    significant first (the AGC v3 integer format), and the reader must return the value it was given and the number of
+    bytes consumed; a length byte above 8 and every truncated encoding must be an Err, never a panic.
+    Returns True (decided, all hold), False (decided, something fails) or None (undecidable construct: fall back)."""
+    from byteslots import ByteInterp, BWord, slot_of, norm
+    from absint import Undecidable, Panic
+    bad, undec, n = [], None, 0
+    try:
+        for m in range(0, 9):
+            v = norm(BWord.cls(m))
+            want = [m] + [("b", m - 1 - i, i == 0) for i in range(m)]
+            sink = []
+            n += 1
+            try:
+                res = ByteInterp(F).call(w, [("refval", sink), v])
+            except Panic as e:
+                bad.append("writer panics for values of %d significant bytes (%s)" % (m, e))
+                continue
+            got = [slot_of(x) for x in sink]
+            if got != want:
+                bad.append("values of %d significant bytes are written as %s, the format is %s" % (m, got, want))
+            if not (isinstance(res, dict) and res.get("__var") == "Ok" and res.get("0") == len(want)):
+                bad.append("writer returns %s for %d bytes written" % (res.get("0") if isinstance(res, dict) else res, len(want)))
+            # the reader on the format's encoding of the class
+            enc = [m] + [BWord([0] * 7 + [x]) for x in want[1:]]
+            try:
+                rr = ByteInterp(F).call(r, [("refval", {"__reader": list(enc), "pos": 0})])
+            except Panic as e:
+                bad.append("reader panics on the encoding of %d-byte values (%s)" % (m, e))
+                continue
+            ok = isinstance(rr, dict) and rr.get("__var") == "Ok" and isinstance(rr.get("0"), dict) and norm(rr["0"].get(0)) == v and rr["0"].get(1) == len(want)
+            if not ok:
+                bad.append("reader returns %s for the encoding of %s" % (rr.get("0") if isinstance(rr, dict) else rr, v))
+            # every truncation of a valid encoding is an error
+            for cut in range(0, len(enc)):
+                n += 1
+                try:
+                    rt = ByteInterp(F).call(r, [("refval", {"__reader": list(enc[:cut]), "pos": 0})])
+                    if not (isinstance(rt, dict) and rt.get("__var") == "Err"):
+                        bad.append("reader accepts the first %d of %d bytes of an encoding" % (cut, len(enc)))
+                except Panic as e:
+                    bad.append("reader panics on a truncated encoding (%d of %d bytes: %s)" % (cut, len(enc), e))
+        for cb in range(9, 256):
+            n += 1
+            try:
+                rt = ByteInterp(F).call(r, [("refval", {"__reader": [cb] + [BWord([0] * 7 + [("b", i, False)]) for i in range(cb)], "pos": 0})])
+                if not (isinstance(rt, dict) and rt.get("__var") == "Err"):
+                    bad.append("reader accepts the length byte %d" % cb)
+            except Panic as e:
+                bad.append("reader panics on the length byte %d (%s)" % (cb, e))
+    except Undecidable as e:
+        undec = str(e)
+    if undec is not None:
+        rep.note("varint codec: slot-domain evaluation not possible (%s); deciding the shape clauses instead" % undec)
+        return None
+    rep.ob("C13-VAR", "integer codec, for EVERY u64 (nine classes by number of significant bytes, symbolic bytes): the writer emits the length byte and the value "
+           "bytes most significant first, the reader returns the same value and length; a length byte > 8 and every truncated encoding is an Err, not a panic",
+           not bad, detail=("%d abstract evaluations in the 8-bit slot domain" % n) if not bad else "; ".join(bad[:4]),
+           site="%s:%d" % (w.file, w.line_lo), key="C13-VAR | codec in the byte-slot domain")
+    rep.stat("varint_abstract_evaluations", n)
+    return not bad
+
+
+def _varint_shape(F, rep, w, r):
     exw, exr = Exprs(w), Exprs(r)
     SELF = ("self",)
     uw = local_updates(w, exw)
@@ -600,6 +677,9 @@ def _varint(F, rep):
                     conds = [(fmt(c[0]), cond_bool(c[1], c[2])) for c in dominating_conds(r, bi, exr)]
                     zero_r = any(k[1] is True and k[0].startswith("Eq(") and "0" in k[0] for k in conds)
     rep.ob("C13-VAR", "reader decodes the single byte 0 as zero", zero_r, key="C13-VAR | reader zero")
+
+
+def _varint_sinks(F, rep, w, r):
     # every bounded sink handed to the writer holds the longest encoding (1 count byte + 8 value bytes)
     nsink = 0
     for f in F.funcs.values():
